@@ -150,6 +150,11 @@ def build_coq(clean: bool = False) -> tuple[bool, str]:
         if clean:
             sh("make clean >/dev/null 2>&1; find . -name '*.vo' -o -name '*.glob' -o -name '.*.aux' | xargs rm -f",
                cwd=str(COQ))
+        vs = sorted(str(p.relative_to(COQ)) for p in coq_files())
+        proj = "-Q . WD\n" + "\n".join(vs) + "\n"
+        pf = COQ / "_CoqProject"
+        if not pf.exists() or pf.read_text() != proj:
+            pf.write_text(proj)
         rc, out = sh("coq_makefile -f _CoqProject -o Makefile", cwd=str(COQ), timeout=120)
         if rc != 0:
             return False, glog + out
@@ -279,7 +284,7 @@ def runner_stale() -> bool:
         return True
     t = BIN.stat().st_mtime
     srcs = list((COQ / "Model").glob("*.v")) + list((COQ / "Base").glob("*.v")) + \
-        [COQ / "Extract" / "Extract.v"] + list((VERIF / "ocaml").glob("*.ml")) + [VERIF / "ocaml" / "build.sh"]
+        list((COQ / "Extract").glob("*.ext")) + [p for p in (VERIF / "ocaml").glob("*.ml") if p.name != "models.ml"] + [VERIF / "ocaml" / "build.sh"]
     return any(s.stat().st_mtime > t for s in srcs if s.exists())
 
 
